@@ -181,6 +181,18 @@ def main(argv=None):
         elif nat.get('error') or not nat.get('ran'):
             undecided.append((b['function'], 'bounded:%s' % b['name'], str(nat.get('error') or nat.get('reason'))[:300]))
 
+    # functions the verifier could not decide (unknown / out of subset / contract out of date): a bounded
+    # native search on the real code may still exhibit a concrete failing input (labelled as such)
+    und_fns = sorted({q for q, _, _ in undecided if not str(_).startswith('bounded:')})
+    for q in und_fns:
+        if any(v[0] == q for v in violations):
+            continue
+        nat = run_native(pid, {'mode': 'search', 'function': q, 'obligation': None, 'model': None, 'seed': seed}, timeout=300)
+        if nat.get('failing'):
+            violations.append((q, {'name': 'undecided-by-verifier:bounded-native-search', 'status': 'failed', 'kind': 'bounded', 'native': nat,
+                                   'model_scope': 'no solver verdict; failing input found by the bounded native search of the replay harness'}))
+            undecided = [u for u in undecided if u[0] != q]
+
     # replay of failed obligations on the real code
     exit_code = 0
     out_lines = []
@@ -190,7 +202,8 @@ def main(argv=None):
         nat = o.get('native')
         if nat is None:
             nat = run_native(pid, {'mode': 'search', 'function': q, 'obligation': o['name'], 'model': o.get('model'), 'seed': seed})
-        rp = os.path.join('replays', pid, '%s__%s.json' % (q.split('.')[-1], o['name'].replace('/', '_').replace(':', '_').replace('@', '_')[:80]))
+        import re as _re
+        rp = os.path.join('replays', pid, '%s__%s.json' % (_re.sub(r'[^A-Za-z0-9_]+', '_', q.split('.')[-1])[:40], _re.sub(r'[^A-Za-z0-9_\[\]-]+', '_', o['name'])[:80]))
         failing = nat.get('failing') if isinstance(nat, dict) else None
         json.dump({'property': pid, 'function': q, 'obligation': o['name'], 'kind': o.get('kind'), 'path': o.get('path'),
                    'solver': {'status': o['status'], 'scope': o.get('model_scope'), 'model': o.get('model')},
